@@ -213,6 +213,8 @@ class Gen(object):
             q = r.choice([1, -1, 2, -2, 3, -3, 4, -4, 10, -12, 25])
             mag = "" if abs(q) == 1 and r.random() < 0.7 else str(abs(q))     # a unit charge may be spelled "+1"
             toks.append({"k": "chg", "q": q, "t": ("+" if q > 0 else "-") + mag})
+        elif r.random() < 0.04:
+            toks.append({"k": "chg", "q": 0, "t": r.choice(["+0", "-0"])})       # a zero charge written out
         if r.random() < 0.3:
             toks.append({"k": "suf", "t": r.choice(SUFFIXES)})
         toks.append({"k": "finish"})
@@ -310,7 +312,7 @@ def lex(text, symbols):
     m = re.search(r"([+-])(\d*)$", s)
     if m:
         mag = m.group(2)
-        if mag.startswith("0"):
+        if mag.startswith("0") and mag != "0":
             return None
         q = int(mag) if mag else 1
         q = q if m.group(1) == "+" else -q
@@ -510,6 +512,9 @@ def reassemble(ptoks):
     for r, t in ptoks:
         if r == "Sup":
             m = re.match(r"^(\d*)([+-])$", t)
+            if t == "0":
+                out.append("+0")
+                continue
             if not m:
                 return None
             out.append(m.group(2) + m.group(1))
